@@ -1,7 +1,7 @@
 /-
 Invariants of the repaired Promise protocol (`Biogo.Promise.sys c` with `c.fixed = true`) for an
-immutable promise without relay, any number of concurrent Fulfill (non-nil value) / Fail (non-nil
-error) / Wait calls, and every schedule.
+immutable promise without relay, any number of concurrent Fulfill / Fail / Wait calls with any
+values (nil included), and every schedule.
 -/
 import Biogo.Model.Promise
 
@@ -15,7 +15,7 @@ theorem fulfill_unset' (f : Flags) (v : Option Nat) :
   cases f with | mk m r l => cases m <;> cases r <;> cases l <;> rfl
 
 theorem fulfill_settled (f : Flags) (hm : f.mutable = false) (hr : f.relay = false) (r0 : Res)
-    (hs : r0.settled = true) (v : Option Nat) :
+    (v : Option Nat) :
     ∃ e, fulfill f (some r0) v = (some r0, some e) := by
   cases f with | mk m r l =>
   simp at hm hr; subst hm; subst hr
@@ -27,10 +27,12 @@ theorem fulfill_settled (f : Flags) (hm : f.mutable = false) (hr : f.relay = fal
 theorem fail_unset (v : Option Nat) (e : Option ErrV) : fail none v e = (some ⟨v, e⟩, true) := by
   cases v <;> simp [fail, messageState, zero]
 
-theorem fail_settled (r0 : Res) (hs : r0.settled = true) (v : Option Nat) (e : Option ErrV) :
+theorem fail_set (r0 : Res) (v : Option Nat) (e : Option ErrV) :
     fail (some r0) v e = (some r0, false) := by
-  cases r0 with | mk val err =>
-  cases val <;> cases err <;> simp_all [fail, messageState, Res.settled]
+  simp [fail, messageState]
+
+theorem fail_settled (r0 : Res) (_hs : r0.settled = true) (v : Option Nat) (e : Option ErrV) :
+    fail (some r0) v e = (some r0, false) := fail_set r0 v e
 
 /-! ### the invariant -/
 
@@ -50,7 +52,7 @@ structure Inv (c : Cfg) (s : St) : Prop where
   bor : ∀ (i : Nat) (r : Res), s.pcs[i]? = some (.borrowed r) → s.mu = some i ∧ s.box = none
   mu_bor : ∀ (i : Nat), s.mu = some i → ∃ r, s.pcs[i]? = some (.borrowed r)
   unset : cur s = none → ∀ (i : Nat) (pc : APc), s.pcs[i]? = some pc → pc = APc.start
-  set_ : ∀ r0, cur s = some r0 → r0.settled = true ∧ s.pcs.countP APc.isWin = 1 ∧
+  set_ : ∀ r0, cur s = some r0 → s.pcs.countP APc.isWin = 1 ∧
       ∀ (i : Nat) (call : Call) (pc : APc), c.calls[i]? = some call → s.pcs[i]? = some pc → consistent r0 call pc = true
 
 structure Scope (c : Cfg) : Prop where
@@ -96,7 +98,7 @@ theorem inv_wait_take (hI : Inv c s) (hcall : c.calls[i]? = some .wait) (hpc : s
     · exact h
     · rw [List.getElem?_eq_none h] at hpc; cases hpc
   have hcur : cur s = some r := cur_of_box hbox
-  obtain ⟨hset, hwin, hcons⟩ := hI.set_ r hcur
+  obtain ⟨hwin, hcons⟩ := hI.set_ r hcur
   have hcur' : cur ({ box := none, mu := some i, pcs := s.pcs.set i (.borrowed r) } : St) = some r := by
     simp [cur, hlt]
   constructor
@@ -112,7 +114,7 @@ theorem inv_wait_take (hI : Inv c s) (hcall : c.calls[i]? = some .wait) (hpc : s
   · intro hn; rw [hcur'] at hn; cases hn
   · intro r0 hr0
     rw [hcur'] at hr0; cases hr0
-    refine ⟨hset, ?_, ?_⟩
+    refine ⟨?_, ?_⟩
     · have := countP_set APc.isWin s.pcs i _ (.borrowed r) hpc
       simp [APc.isWin] at this
       show List.countP APc.isWin (s.pcs.set i (.borrowed r)) = 1
@@ -138,7 +140,7 @@ theorem inv_wait_put (hI : Inv c s) (hcall : c.calls[i]? = some .wait) {r : Res}
   have hlt := lt_of_get hpc
   obtain ⟨hmu, hbox⟩ := hI.bor i r hpc
   have hcur : cur s = some r := cur_of_borrowed hbox hmu hpc
-  obtain ⟨hset, hwin, hcons⟩ := hI.set_ r hcur
+  obtain ⟨hwin, hcons⟩ := hI.set_ r hcur
   constructor
   · simp [hI.len]
   · intro j r' hj
@@ -152,7 +154,7 @@ theorem inv_wait_put (hI : Inv c s) (hcall : c.calls[i]? = some .wait) {r : Res}
   · intro hn; simp [cur] at hn
   · intro r0 hr0
     simp [cur] at hr0; subst hr0
-    refine ⟨hset, ?_, ?_⟩
+    refine ⟨?_, ?_⟩
     · have := countP_set APc.isWin s.pcs i _ (.done (.res r)) hpc
       simp [APc.isWin] at this
       show List.countP APc.isWin (s.pcs.set i (.done (.res r))) = 1
@@ -169,7 +171,7 @@ theorem inv_wait_put (hI : Inv c s) (hcall : c.calls[i]? = some .wait) {r : Res}
 /-- the first successful Fulfill / Fail -/
 theorem inv_set_first (hI : Inv c s) {call : Call} (hcall : c.calls[i]? = some call)
     (hpc : s.pcs[i]? = some .start) (hmu : s.mu = none) (hbox : s.box = none)
-    (r1 : Res) (ret : Ret) (hs : r1.settled = true) (hw : (APc.done ret).isWin = true)
+    (r1 : Res) (ret : Ret) (hw : (APc.done ret).isWin = true)
     (hc : consistent r1 call (.done ret) = true) :
     Inv c { s with box := some r1, pcs := s.pcs.set i (.done ret) } := by
   have hlt := lt_of_get hpc
@@ -185,7 +187,7 @@ theorem inv_set_first (hI : Inv c s) {call : Call} (hcall : c.calls[i]? = some c
   · intro hn; simp [cur] at hn
   · intro r0 hr0
     simp [cur] at hr0; subst hr0
-    refine ⟨hs, ?_, ?_⟩
+    refine ⟨?_, ?_⟩
     · have := countP_set APc.isWin s.pcs i _ (.done ret) hpc
       have h0 := countP_all_start s.pcs hall
       rw [hw] at this
@@ -209,7 +211,7 @@ theorem inv_set_later (hI : Inv c s) {call : Call} (hcall : c.calls[i]? = some c
     (hc : consistent r0 call (.done ret) = true) :
     Inv c { s with box := some r0, pcs := s.pcs.set i (.done ret) } := by
   have hlt := lt_of_get hpc
-  obtain ⟨hset, hwin, hcons⟩ := hI.set_ r0 (cur_of_box hbox)
+  obtain ⟨hwin, hcons⟩ := hI.set_ r0 (cur_of_box hbox)
   constructor
   · simp [hI.len]
   · intro j r' hj
@@ -221,7 +223,7 @@ theorem inv_set_later (hI : Inv c s) {call : Call} (hcall : c.calls[i]? = some c
   · intro hn; simp [cur] at hn
   · intro r1 hr1
     simp [cur] at hr1; subst hr1
-    refine ⟨hset, ?_, ?_⟩
+    refine ⟨?_, ?_⟩
     · have := countP_set APc.isWin s.pcs i _ (.done ret) hpc
       rw [hw] at this
       simp [APc.isWin] at this
@@ -259,56 +261,48 @@ theorem inv_step (hS : Scope c) (hI : Inv c s) (h : step c s i = some s') : Inv 
           exact inv_wait_put hI hcall hpc
         | done ret => simp [step, hcall, hpc] at h
       | fulfill v =>
-        cases v with
-        | none => simp [Call.inScope] at hscope
-        | some v =>
-          cases pc with
-          | start =>
-            simp only [step, hcall, hpc] at h
-            cases hmu : s.mu with
-            | some j => simp [hmu] at h
+        cases pc with
+        | start =>
+          simp only [step, hcall, hpc] at h
+          cases hmu : s.mu with
+          | some j => simp [hmu] at h
+          | none =>
+            simp only [hmu, atomicCall] at h
+            cases hbox : s.box with
             | none =>
-              simp only [hmu, atomicCall] at h
-              cases hbox : s.box with
-              | none =>
-                rw [hbox, fulfill_unset'] at h
-                cases h
-                have key := inv_set_first hI hcall hpc hmu hbox ⟨some v, none⟩ (.ferr none) rfl rfl (by simp [consistent])
-                rw [hmu] at key; exact key
-              | some r0 =>
-                obtain ⟨hset, _, _⟩ := hI.set_ r0 (cur_of_box hbox)
-                obtain ⟨e, he⟩ := fulfill_settled c.flags hS.immutable hS.norelay r0 hset (some v)
-                rw [hbox, he] at h
-                cases h
-                have key := inv_set_later hI hcall hpc hmu hbox (.ferr (some e)) rfl rfl
-                rw [hmu] at key; exact key
-          | borrowed r => simp [step, hcall, hpc] at h
-          | done ret => simp [step, hcall, hpc] at h
+              rw [hbox, fulfill_unset'] at h
+              cases h
+              have key := inv_set_first hI hcall hpc hmu hbox ⟨v, none⟩ (.ferr none) rfl (by simp [consistent])
+              rw [hmu] at key; exact key
+            | some r0 =>
+              obtain ⟨e, he⟩ := fulfill_settled c.flags hS.immutable hS.norelay r0 v
+              rw [hbox, he] at h
+              cases h
+              have key := inv_set_later hI hcall hpc hmu hbox (.ferr (some e)) rfl rfl
+              rw [hmu] at key; exact key
+        | borrowed r => simp [step, hcall, hpc] at h
+        | done ret => simp [step, hcall, hpc] at h
       | fail v e =>
-        cases e with
-        | none => cases v <;> simp [Call.inScope] at hscope
-        | some e =>
-          cases pc with
-          | start =>
-            simp only [step, hcall, hpc] at h
-            cases hmu : s.mu with
-            | some j => simp [hmu] at h
+        cases pc with
+        | start =>
+          simp only [step, hcall, hpc] at h
+          cases hmu : s.mu with
+          | some j => simp [hmu] at h
+          | none =>
+            simp only [hmu, atomicCall] at h
+            cases hbox : s.box with
             | none =>
-              simp only [hmu, atomicCall] at h
-              cases hbox : s.box with
-              | none =>
-                rw [hbox, fail_unset] at h
-                cases h
-                have key := inv_set_first hI hcall hpc hmu hbox ⟨v, some (e)⟩ (.bool true) (by simp [Res.settled]) rfl (by simp [consistent])
-                rw [hmu] at key; exact key
-              | some r0 =>
-                obtain ⟨hset, _, _⟩ := hI.set_ r0 (cur_of_box hbox)
-                rw [hbox, fail_settled r0 hset] at h
-                cases h
-                have key := inv_set_later hI hcall hpc hmu hbox (.bool false) rfl rfl
-                rw [hmu] at key; exact key
-          | borrowed r => simp [step, hcall, hpc] at h
-          | done ret => simp [step, hcall, hpc] at h
+              rw [hbox, fail_unset] at h
+              cases h
+              have key := inv_set_first hI hcall hpc hmu hbox ⟨v, e⟩ (.bool true) rfl (by simp [consistent])
+              rw [hmu] at key; exact key
+            | some r0 =>
+              rw [hbox, fail_set r0] at h
+              cases h
+              have key := inv_set_later hI hcall hpc hmu hbox (.bool false) rfl rfl
+              rw [hmu] at key; exact key
+        | borrowed r => simp [step, hcall, hpc] at h
+        | done ret => simp [step, hcall, hpc] at h
       | recover v => simp [Call.inScope] at hscope
       | brk => simp [Call.inScope] at hscope
 
@@ -412,7 +406,7 @@ theorem reachFrom_done_stable {s₀ s₁ : St} (h : ReachFrom (sys c) s₀ s₁)
 theorem exists_winner (hI : Inv c s) {r0 : Res} (hcur : cur s = some r0) :
     ∃ (w : Nat) (call : Call) (ret : Ret), c.calls[w]? = some call ∧ s.pcs[w]? = some (.done ret) ∧
       (APc.done ret).isWin = true ∧ consistent r0 call (.done ret) = true := by
-  obtain ⟨_, hwin, hcons⟩ := hI.set_ r0 hcur
+  obtain ⟨hwin, hcons⟩ := hI.set_ r0 hcur
   have hpos : 0 < s.pcs.countP APc.isWin := by omega
   rw [List.countP_pos_iff] at hpos
   obtain ⟨pc, hmem, hw⟩ := hpos
@@ -440,7 +434,7 @@ theorem cur_stable {s₀ s₁ : St} (hI0 : Inv c s₀) (hI1 : Inv c s₁) (h : R
   cases hc1 : cur s₁ with
   | none => have := hI1.unset hc1 w _ hpc1; cases this
   | some r1 =>
-    obtain ⟨_, _, hcons1⟩ := hI1.set_ r1 hc1
+    obtain ⟨_, hcons1⟩ := hI1.set_ r1 hc1
     have := winner_determines hwin hcons (hcons1 w call _ hcall hpc1)
     rw [this]
 
@@ -449,7 +443,7 @@ theorem cur_stable {s₀ s₁ : St} (hI0 : Inv c s₀) (hI1 : Inv c s₁) (h : R
 theorem borrowed_is_wait (hI : Inv c s) {r : Res} (hpc : s.pcs[i]? = some (.borrowed r)) :
     c.calls[i]? = some .wait := by
   obtain ⟨hmu, hbox⟩ := hI.bor i r hpc
-  obtain ⟨_, _, hcons⟩ := hI.set_ r (cur_of_borrowed hbox hmu hpc)
+  obtain ⟨_, hcons⟩ := hI.set_ r (cur_of_borrowed hbox hmu hpc)
   have hlt : i < c.calls.length := by rw [← hI.len]; exact lt_of_get hpc
   have hcall : c.calls[i]? = some c.calls[i] := by simp [hlt]
   have := hcons i _ _ hcall hpc
